@@ -161,14 +161,30 @@ def stage_item(item):
     out['secs'] = round(time.time() - t0, 2)
     if 'src' in item:
         out['src'] = item['src']
-    if (out['status'] == 'violation' or out.get('upstream_defect')) and item.get('twin'):
+    pdv = bool(out.get('per_definition', {}).get('violations'))
+    if (out['status'] == 'violation' or out.get('upstream_defect') or pdv) and item.get('twin'):
         # classification aid: does the same program with the binders renamed apart pass?
         tw = stage_item({'name': item['name'] + '#twin', 'src': item['twin'], 'pairs': item['pairs'], 'budgets': item.get('budgets'),
                          'per_definition': item.get('per_definition'), 'uniqueness': item.get('uniqueness')})
         out['twin_status'] = tw['status']
-        if out.get('upstream_defect') and out['status'] == 'ok':
+        first = item['pairs'][0][0]
+        has_product_violation = any(res_.get('violations') for res_ in out['results'].values() if isinstance(res_, dict))
+        if pdv and not has_product_violation and tw['status'] == 'ok':
+            # an inexact environment on a path that exists only syntactically, and only when names are reused: the shrunk input is
+            # already ill-formed there (two different variables with one identifier); exactness is established on the twin
+            out['upstream_defect'] = True
+        if first != 'fun' and tw['status'] == 'ok' and not out.get('upstream_defect') and out['status'] == 'violation':
+            # the failure needs name reuse.  Is this stage's INPUT already a wrong translation of the source (upstream capture
+            # defect), or is the input fine and this stage mishandles the shadowing?  Decide by validating fun -> input.
+            up = product.product(R['fun'], R[first], n, max_steps=b['max_steps'], max_paths=b['max_paths'],
+                                 time_budget=b.get('time_budget', 60.0), timeout_ms=b.get('timeout_ms', 3000)) if first in R else None
+            bad_up = up is None or bool(up['violations']) or any('stuck' in w for w in up['inconclusive'])
+            out['upstream_check'] = {'violations': len(up['violations']) if up else None, 'inconclusive': (up or {}).get('inconclusive', [])[:2]}
+            if bad_up:
+                out['upstream_defect'] = True
+        if out.get('upstream_defect') and tw['status'] == 'ok':
             # report the twin's result in place of the skipped program
-            tw['name'] = item['name'] + '#twin(renamed apart; original skipped: upstream capture defect)'
+            tw['name'] = item['name'] + '#twin(renamed apart; original skipped: its input is already ill-formed by the upstream capture defect)'
             return tw
     return out
 
